@@ -79,6 +79,7 @@ class Trace:
 
     def __init__(self):
         self.ev = []
+        self.accounting = []  # reader side: (byteCount when the record is closed, count the record opened with)
 
     def records(self):
         """[(fields, count)] where fields = [(kind, ...)]"""
@@ -153,6 +154,8 @@ def make_recording_classes(cccc, trace, ascii_=False):
 
         def close(self):
             n = self.numBytes
+            if self._hasRecordBoundaries:
+                trace.accounting.append((int(self.byteCount), int(n)))
             self._frame = True
             try:
                 super().close()
@@ -443,6 +446,11 @@ def run_record_sequences(ctx):
             ctx.fail("record-read-raises", "a record the writer produced can be read", case, observed=repr(e)[:300])
             jobs.append((asc, case, raw, trw))
             continue
+        acc = accounting_errors(trr)
+        if acc:
+            ctx.fail("record-reader-byte-accounting-" + ("ascii" if asc else "binary"),
+                     "when a record is closed the reader's byteCount equals the payload size the writer declared", case,
+                     observed=[{"byteCount": bc, "declared": n} for _i, bc, n in acc[:3]])
         left = buf2.read()
         if left:
             ctx.fail("record-reader-leaves-bytes", "reading a record consumes exactly the bytes written", case, observed=len(left))
@@ -1174,6 +1182,9 @@ def gen_dlayxs(rng, asc, idx):
     d.neutronEnergyUpperBounds = garr(rng, ng)
     md["minEnergy"] = gf(rng)
     md["dummy"] = gi(rng, asc)
+    # trailing 4-character pad words of the spectra record: the reader sizes them from (numBytes - byteCount) // 4
+    npad = [3, 0, 1, 7, 2, 12][idx % 6] if idx < 6 else rng.randint(0, 9)
+    md["dummy2"] = np.array([rand_text(rng, 4) or "PAD" for _ in range(npad)]) if npad else []
     for k, v in d.items():
         v.delayNeutronsPerFission = np.abs(garr(rng, v.delayNeutronsPerFission.shape)) + 1.0
         # per-nuclide spectra/decay constants are not stored: they are derived from the family tables on reading
@@ -1357,6 +1368,11 @@ def roundtrip_case(ctx, fmt, data, asc, workdir, tag, case, jobs, origin="genera
         ctx.fail(f"ascii-{fmt.name.lower()}-{origin}-{cause}" if cause else f"{key0}-reader-trace",
                  "the reader makes the same rw* calls, with the same values, as the writer", case,
                  observed=trr.ev[max(0, d - 1):d + 2], expected=trw.ev[max(0, d - 1):d + 2])
+    acc = accounting_errors(trr)
+    if acc and not cause:
+        ctx.fail(f"{key0}-reader-byte-accounting",
+                 "when a record is closed the reader's byteCount equals the payload size the writer declared", case,
+                 observed=[{"record": i, "byteCount": bc, "declared": n} for i, bc, n in acc[:3]])
     B = canon(data2)
     df = first_diff(A, B)
     if df:
@@ -1375,6 +1391,12 @@ def roundtrip_case(ctx, fmt, data, asc, workdir, tag, case, jobs, origin="genera
                  "writing what was read reproduces the file byte for byte", case, observed=_first_byte_diff(b2, b1))
     jobs.append((fmt, asc, case, trw, b1))
     return data2
+
+
+def accounting_errors(tr):
+    """records whose reader-side byte accounting (int 4, long 8, float 4, double 8, string = its length; the same in
+    the ASCII reader) differs from the payload size the writer declared; DLAYXS sizes a field from this count"""
+    return [(i, bc, n) for i, (bc, n) in enumerate(tr.accounting) if bc != n]
 
 
 def norm_events(ev):
